@@ -192,6 +192,7 @@ func init() {
 		Enums: EnumCoroutineShapes,
 		Rule: "profile `coroutines` (1–4 coroutines, nested resumes, payload counts independent of wanted counts, wrap generators, errors inside) + exhaustive payload/wanted grid + corpus; oracle = Lean reference semantics"})
 	reg(progSpec{Prop: "C17", Profiles: []string{"errors", "core", "calls"}, QuickN: 900, ThoroughN: 20000, FaultPct: 70, Layouts: one,
-		Rule: "program-level error positions: profiles errors/core/calls with a deliberate fault in 70 % of the programs (run-time faults of every kind, error(msg) at levels 1 and 2, errors raised by library functions, caught and uncaught), every statement on one line: the reported `chunk:line:` must be exactly the line the Lean reference semantics assigns"})
+		Must: func(bool) []*Program { return EnumLineAfterShapes() },
+		Rule: "program-level error positions: profiles errors/core/calls with a deliberate fault in 70 % of the programs (run-time faults of every kind, error(msg) at levels 1 and 2, errors raised by library functions, caught and uncaught), every statement on one line, + exhaustive pairs (statement whose last instruction is deleted/rewritten by the compiler) × (statement whose first instruction faults) × placement with comment/blank lines between: the reported `chunk:line:` must be exactly the line the Lean reference semantics assigns"})
 	_ = fmt.Sprint
 }
